@@ -7,6 +7,7 @@ structure St where
   ctrs : List C01.RunCtr := []
   discarded : List Nat := []
   models : List String := []
+  killed : Bool := false
 
 def valsD (s : St) : List Shards := s.vals.map (·.getD default)
 
@@ -35,7 +36,8 @@ def stepOp (s : St) (op obs : String) : Except String St := do
     if !usesAll s p then
       if obs != "skipped" then throw "a run using a failed result was not skipped by the harness"
       return { s with vals := s.vals ++ [none], ctrs := s.ctrs ++ [{}] }
-    match C01.checkProgram prog (valsD s) s.ctrs obs with
+    -- after a machine was lost, tasks are recomputed: side effects of recomputed tasks happen again (only rows are judged)
+    match C01.checkProgram prog (valsD s) s.ctrs obs (lenient := s.killed) with
     | .ok (sh, c, m) => return { s with vals := s.vals ++ [some sh], ctrs := s.ctrs ++ [c], models := s.models ++ [m] }
     | .error e => throw e
   | ["scan", k] =>
@@ -67,6 +69,11 @@ def stepOp (s : St) (op obs : String) : Except String St := do
     match C01.checkProgram prog (valsD s) s.ctrs obs (lenient := true) with
     | .ok (sh, c, m) => return { s with vals := s.vals ++ [some sh], ctrs := s.ctrs ++ [c], models := s.models ++ [m] }
     | .error e => throw e
+  | ["kill"] =>
+    -- a machine is lost (C02 decides recovery in general; here: a Discard that meets the dead machine must still leave the
+    -- discarded tasks recomputable)
+    if obs != "killed" && obs != "skipped" then throw s!"bad kill observation {obs}"
+    return { s with killed := s.killed || obs == "killed" }
   | ["procs"] =>
     -- C14: once every run has completed no machine has procs booked (and none is booked below zero)
     if !obs.startsWith "procs=" then throw s!"machine accounting was not reported: {obs.take 100}"
